@@ -8,6 +8,7 @@ use cgmath::*;
 pub mod mat;
 pub mod oracle;
 pub mod point;
+pub mod quat;
 pub mod vec;
 
 pub enum Val {
@@ -230,6 +231,7 @@ pub fn lookup(name: &str) -> Option<OpFn> {
     vec::lookup(name)
         .or_else(|| point::lookup(name))
         .or_else(|| mat::lookup(name))
+        .or_else(|| quat::lookup(name))
         .or_else(|| oracle::lookup(name))
 }
 pub fn all_names() -> Vec<String> {
@@ -237,6 +239,7 @@ pub fn all_names() -> Vec<String> {
     v.extend(vec::names());
     v.extend(point::names());
     v.extend(mat::names());
+    v.extend(quat::NAMES.iter().map(|s| s.to_string()));
     v.extend(oracle::names());
     v
 }
